@@ -460,6 +460,10 @@ func c20(c *core.Ctx) {
 	c.Clause("C20.7", "nothing is dropped between the socket and its handler: every send of package network on a channel held in one of its own types blocks (no select-with-default around it)")
 	c.Run("no-dropping-send", func() { c20NoDroppingSend(c) })
 
+	c.Clause("C20.8", "what a node ends with does not depend on which duplicates it happened to see or on who made its blocks stable: the confirm filters' error decides nothing unless the list of good confirms is empty (VerifyAndSeal, insertConfirms); needConfirm measures a block against the later of the node's last signature and the latest stable block")
+	c.Run("partial-verdict-used", func() { c20PartialVerdictUsed(c) })
+	c.Run("need-confirm-from-stable", func() { c20NeedConfirmFromStable(c) })
+
 	c.NotDecidedf("convergence itself: equality of the end states (current/stable block, pool content) over all delivery orders, duplications and interleavings is a property of histories and is not decided")
 	c.NotDecidedf("that BlockCache keeps heights ascending and loses no block (only the overwrite-by-append shape is decided), eviction at 10240 entries, timing of the 500 ms drain, which peer is asked")
 	c.NotDecidedf("exactly-once delivery to the pool across batches and peers (TxPool's own duplicate test belongs to C18)")
